@@ -6,6 +6,8 @@ From Verif Require Corr.C06.
 From Verif Require Import Proofs.NonInterferenceRel Proofs.NonInterferenceOps Proofs.NonInterferenceTwins
      Proofs.NonInterferenceBuiltins Proofs.NonInterferenceEval
      Proofs.CheckApproxMono Proofs.CheckApproxRel Proofs.CheckApproxKit.
+From Verif Require Import Proofs.RefSem2Depth.
+From Verif Require Proofs.HelperFuel.
 From Coq Require Import Lia ZifyN ZifyNat ZifyBool.
 
 Notation ap_c := (chain_ap ap_l).
@@ -77,9 +79,9 @@ Lemma xhs_scalar s u x : x_has_secret (XScalar s u x) = s.
 Proof. reflexivity. Qed.
 
 Lemma cu_scalar s u sc x r : contains_unknowns (LScalar s u sc x :: r) = u.
-Proof. now rewrite cu_eq, big_fuel_S, export_S_scalar, xhu_scalar. Qed.
+Proof. now rewrite cu_eq, export_t_eq, export_S_scalar, xhu_scalar. Qed.
 Lemma cs_scalar s u sc x r : contains_secrets (LScalar s u sc x :: r) = s.
-Proof. now rewrite cs_eq, big_fuel_S, export_S_scalar, xhs_scalar. Qed.
+Proof. now rewrite cs_eq, export_t_eq, export_S_scalar, xhs_scalar. Qed.
 
 Lemma x_any_unk f v : C06.x_unk v = true -> x_any (fun _ u => u) (S f) v = true.
 Proof. destruct v; simpl; intros ->; reflexivity. Qed.
@@ -94,12 +96,12 @@ Qed.
 
 Lemma cu_unk_top l r : l_unk l = true -> contains_unknowns (l :: r) = true.
 Proof.
-  intros Hu. rewrite cu_eq, big_fuel_S. destruct (export (S bf') (l :: r)) as [x|] eqn:E; [|reflexivity].
+  intros Hu. rewrite cu_eq, export_t_eq. destruct (export (S (cdepth (l :: r))) (l :: r)) as [x|] eqn:E; [|reflexivity].
   unfold x_has_unknown. apply x_any_unk. eapply export_unk_top; eassumption.
 Qed.
 
 Lemma cu_nil : contains_unknowns [] = true.
-Proof. now rewrite cu_eq, big_fuel_S, export_S_nil. Qed.
+Proof. now rewrite cu_eq, export_t_eq, export_S_nil. Qed.
 
 Definition kstr (c : chain) : Prop := exists s sc t r, c = LScalar s false sc (SStr t) :: r.
 Definition karr (c : chain) : Prop := exists s sc elems r, c = LArr s false sc elems :: r /\ Forall kstr elems.
@@ -111,8 +113,8 @@ Lemma xhu_arr s u l :
   u || existsb (x_any (fun _ u => u) (S (fold_left (fun a x => Nat.max a (x_depth x)) l 0%nat))) l.
 Proof. reflexivity. Qed.
 
-Lemma elems_ktop d elems xl :
-  Forall2 (fun e x => export (S bf'') e = Some x) elems xl ->
+Lemma elems_ktop g d elems xl :
+  Forall2 (fun e x => export (S g) e = Some x) elems xl ->
   existsb (x_any (fun _ u => u) (S d)) xl = false -> Forall ktop elems.
 Proof.
   induction 1 as [|e x elems xl Hex _ IH]; [constructor|]. cbn [existsb]. intros H.
@@ -124,8 +126,9 @@ Qed.
 
 Lemma cu_arr_elems s sc elems r : contains_unknowns (LArr s false sc elems :: r) = false -> Forall ktop elems.
 Proof.
-  rewrite cu_eq, big_fuel_S, export_S_arr. destruct (mapM (export bf') elems) as [xl|] eqn:M; [|discriminate].
-  rewrite xhu_arr. cbn [orb]. apply mapM_Some_inv in M. rewrite bf'_S in M. eapply elems_ktop, M.
+  rewrite cu_eq, (export_t_at _ (S (S (cdepth (LArr s false sc elems :: r))))) by lia. rewrite export_S_arr.
+  destruct (mapM (export (S (cdepth (LArr s false sc elems :: r)))) elems) as [xl|] eqn:M; [|discriminate].
+  rewrite xhu_arr. cbn [orb]. apply mapM_Some_inv in M. eapply elems_ktop, M.
 Qed.
 
 Lemma tis_ktop e : top_is_string e = true -> ktop e -> kstr e.
@@ -199,7 +202,36 @@ Proof.
   induction HK as [|e elems He _ IH]; [reflexivity|]. simpl. now rewrite (kstr_tis _ He).
 Qed.
 
-Lemma export_eq_cu c o : export big_fuel c = export big_fuel o ->
+Lemma kstr_export_t c o : kstr c -> ap_c c o -> export_t c = export_t o.
+Proof.
+  intros K H. destruct (kstr_ap _ _ K H) as (K' & _ & EX). rewrite !export_t_eq.
+  destruct K as (s & sc & t & r & ->). destruct K' as (s' & sc' & t' & r' & ->).
+  pose proof (EX 0%nat) as E0. rewrite !export_S_scalar in *. exact E0.
+Qed.
+
+Lemma karr_export_t c o : karr c -> ap_c c o -> export_t c = export_t o.
+Proof.
+  intros K H. destruct (karr_ap _ _ K H) as (_ & _ & EX).
+  rewrite (export_t_at c (S (S (Nat.max (cdepth c) (cdepth o))))) by lia.
+  rewrite (export_t_at o (S (S (Nat.max (cdepth c) (cdepth o))))) by lia. apply EX.
+Qed.
+
+(* the two runs read their values with the fuel each computes; both can be read at one fuel *)
+Lemma to_string_need_ap v v' : ap_c v v' -> tsa (to_string (ts_need v) v) (to_string (ts_need v') v').
+Proof.
+  intros H. rewrite (HelperFuel.to_string_need_max v (ts_need v')), (HelperFuel.to_string_need_max' v' (ts_need v)).
+  apply to_string_ap, H.
+Qed.
+
+Lemma value_access_need_ap c o accs : ap_c c o ->
+  ap_c (fst (value_access (va_need c accs) c accs)) (fst (value_access (va_need o accs) o accs)).
+Proof.
+  intros H. rewrite (HelperFuel.value_access_need_max c accs (va_need o accs)),
+                    (HelperFuel.value_access_need_max' o accs (va_need c accs)).
+  apply value_access_ap, H.
+Qed.
+
+Lemma export_eq_cu c o : export_t c = export_t o ->
   contains_unknowns c = contains_unknowns o /\ contains_secrets c = contains_secrets o.
 Proof. intros E. rewrite !cu_eq, !cs_eq, E. split; reflexivity. Qed.
 
@@ -288,8 +320,8 @@ Proof.
   pose proof (str_top _ (eq_sym Ed) CUd) as Kd. pose proof (arr_top _ (eq_sym Ev) CUv) as Kv.
   destruct (kstr_ap _ _ Kd Hd) as (Kd' & HSd & EXd). destruct (karr_ap _ _ Kv Hv) as (Kv' & HSv & EXv).
   rewrite (kstr_validate _ Kd') in Ed'. rewrite (karr_validate _ Kv') in Ev'. simpl in Ed'. subst dok' vok'.
-  assert (X1 : export big_fuel dv = export big_fuel dv') by (rewrite big_fuel_S; apply EXd).
-  assert (X2 : export big_fuel vv = export big_fuel vv') by (rewrite big_fuel_S, bf'_S; apply EXv).
+  assert (X1 : export_t dv = export_t dv') by (apply kstr_export_t; assumption).
+  assert (X2 : export_t vv = export_t vv') by (apply karr_export_t; assumption).
   destruct (export_eq_cu _ _ X1) as [U1 S1]. destruct (export_eq_cu _ _ X2) as [U2 S2].
   unfold join_tail, combine2. simpl negb. cbn [orb]. rewrite <- U1, <- U2, <- S1, <- S2, CUd, CUv. cbn [orb].
   fold (head_str dv) (head_str dv') (arr_strs vv) (arr_strs vv'). rewrite HSd, HSv. arel_refl.
@@ -297,10 +329,10 @@ Qed.
 
 Theorem tostring_ap v v' : ap_c v v' -> mrel_a ap_c (tostring_tail v) (tostring_tail v').
 Proof.
-  intros Hv. pose proof (to_string_ap big_fuel _ _ Hv) as [Hu|E].
-  - unfold tostring_tail at 1. destruct (to_string big_fuel v) as [[s u] k]. simpl in Hu. subst u.
+  intros Hv. pose proof (to_string_need_ap _ _ Hv) as [Hu|E].
+  - unfold tostring_tail at 1. destruct (to_string (ts_need v) v) as [[s u] k]. simpl in Hu. subst u.
     apply arel_wild; [exact I|apply neutral_tostring_tail].
-  - unfold tostring_tail. rewrite E. destruct (to_string big_fuel v') as [[s u] k]. destruct u; arel_refl.
+  - unfold tostring_tail. rewrite E. destruct (to_string (ts_need v') v') as [[s u] k]. destruct u; arel_refl.
 Qed.
 
 Lemma opt_top_sec_ap v v' : ap_c v v' -> ap_c (opt_top_sec v) (opt_top_sec v').
@@ -367,8 +399,8 @@ Proof.
     + apply wildc_ap. exact I.
     + destruct unk; [apply wildc_ap; exact I|apply ap_c_refl].
   - rewrite !interp_go_ref. arel_bind_with (chain_ap ap_l); [now apply HA|].
-    intros pv pv' Hpv. pose proof (to_string_ap big_fuel _ _ Hpv) as HT.
-    destruct (to_string big_fuel pv) as [[s u] k], (to_string big_fuel pv') as [[s' u'] k'].
+    intros pv pv' Hpv. pose proof (to_string_need_ap _ _ Hpv) as HT.
+    destruct (to_string (ts_need pv) pv) as [[s u] k], (to_string (ts_need pv') pv') as [[s' u'] k'].
     apply IH. destruct HT as [Hu|Et].
     + simpl in Hu. subst u. left. apply Bool.orb_true_r.
     + injection Et as <- <- <-. destruct Hinv as [->|(-> & -> & ->)]; [now left|].
@@ -425,15 +457,15 @@ Lemma qstep_access f : Q_walk f -> Q_access (S f).
 Proof.
   intros HWk E E' p HE. rewrite !eval_access_S. destruct p as [|a0 rest]; [arel_refl|].
   rewrite !access_body_sel. destruct (sel_cases (object_key a0)) as [S|[S|S]]; rewrite !S.
-  - apply arel_access_result. apply value_access_ap, HE.
-  - apply arel_access_result. apply value_access_ap, HE.
+  - apply arel_access_result. apply value_access_need_ap, HE.
+  - apply arel_access_result. apply value_access_need_ap, HE.
   - rewrite <- (ea_name _ _ HE), <- (ea_values _ _ HE). apply HWk; [exact HE|apply HE|apply HE].
 Qed.
 
 Ltac qwalk_default HP HE Hx Hrb :=
   arel_bind_with (chain_ap ap_l); [apply HP; [exact HE|exact Hx|exact Hrb]|];
   let v1 := fresh "v" in let v2 := fresh "v" in let Hv := fresh "Hv" in
-  intros v1 v2 Hv; apply arel_access_result; now apply value_access_ap.
+  intros v1 v2 Hv; apply arel_access_result; now apply value_access_need_ap.
 
 Lemma qstep_walk f : Q_expr f -> Q_walk f -> Q_walk (S f).
 Proof.
@@ -453,30 +485,30 @@ Proof.
       * (* unknown check base: the check result is an unknown in either branch *)
         assert (G : forall m2 : M chain, neutral m2 ->
                     mrel_a ap_c (if is_object (LScalar s0 true sc0 x0 :: r0)
-                                 then let '(c, n) := value_access big_fuel (LScalar s0 true sc0 x0 :: r0) (a :: rest) in add_err n ;;; ret c
+                                 then let '(c, n) := value_access (va_need (LScalar s0 true sc0 x0 :: r0) (a :: rest)) (LScalar s0 true sc0 x0 :: r0) (a :: rest) in add_err n ;;; ret c
                                  else err ;;; ret invalid_access) m2).
         { intros m2 Hn. destruct (is_object _).
-          - destruct (value_access big_fuel (LScalar s0 true sc0 x0 :: r0) (a :: rest)) as [c n] eqn:V.
+          - destruct (value_access (va_need (LScalar s0 true sc0 x0 :: r0) (a :: rest)) (LScalar s0 true sc0 x0 :: r0) (a :: rest)) as [c n] eqn:V.
             apply arel_add_err_l. apply arel_wild; [|exact Hn].
-            replace c with (fst (value_access big_fuel (LScalar s0 true sc0 x0 :: r0) (a :: rest))) by now rewrite V.
+            replace c with (fst (value_access (va_need (LScalar s0 true sc0 x0 :: r0) (a :: rest)) (LScalar s0 true sc0 x0 :: r0) (a :: rest))) by now rewrite V.
             apply va_unk_wild. reflexivity.
           - apply arel_add_err_l. apply arel_wild; [exact I|exact Hn]. }
-        apply G. destruct (is_object o0); [|neutral_tac]. destruct (value_access big_fuel o0 (a :: rest)). neutral_tac.
+        apply G. destruct (is_object o0); [|neutral_tac]. destruct (value_access (va_need o0 (a :: rest)) o0 (a :: rest)). neutral_tac.
       * assert (Hb : ap_c (l0 :: r0) (l0' :: r0')) by now constructor.
         unfold is_object. rewrite <- (ap_l_unk _ _ Hl0). destruct (l_unk l0) eqn:EU0.
         -- assert (G : forall m2 : M chain, neutral m2 ->
                     mrel_a ap_c (if sch_objectish (top_sch (l0 :: r0))
-                                 then let '(c, n) := value_access big_fuel (l0 :: r0) (a :: rest) in add_err n ;;; ret c
+                                 then let '(c, n) := value_access (va_need (l0 :: r0) (a :: rest)) (l0 :: r0) (a :: rest) in add_err n ;;; ret c
                                  else err ;;; ret invalid_access) m2).
            { intros m2 Hn. destruct (sch_objectish _).
-             - destruct (value_access big_fuel (l0 :: r0) (a :: rest)) as [c n] eqn:V.
+             - destruct (value_access (va_need (l0 :: r0) (a :: rest)) (l0 :: r0) (a :: rest)) as [c n] eqn:V.
                apply arel_add_err_l. apply arel_wild; [|exact Hn].
-               replace c with (fst (value_access big_fuel (l0 :: r0) (a :: rest))) by now rewrite V.
+               replace c with (fst (value_access (va_need (l0 :: r0) (a :: rest)) (l0 :: r0) (a :: rest))) by now rewrite V.
                apply va_unk_wild. exact EU0.
              - apply arel_add_err_l. apply arel_wild; [exact I|exact Hn]. }
-           apply G. destruct (sch_objectish _); [|neutral_tac]. destruct (value_access big_fuel (l0' :: r0') (a :: rest)). neutral_tac.
+           apply G. destruct (sch_objectish _); [|neutral_tac]. destruct (value_access (va_need (l0' :: r0') (a :: rest)) (l0' :: r0') (a :: rest)). neutral_tac.
         -- destruct Hl0; try (apply arel_add_err; arel_refl).
-           apply arel_access_result. now apply value_access_ap.
+           apply arel_access_result. now apply value_access_need_ap.
   - (* ESecretPlain *)
     apply HWk; [exact HE|reflexivity|constructor].
   - (* ESecretCipher *)
